@@ -192,6 +192,42 @@ func govcRetry() string {
 	return ""
 }
 
+// a routine that returned nil is not run again by context changes; a failed one only with restart=true
+func govcSuccessNotRerun() string {
+	var runs atomic.Int32
+	rc := NewRoutineContainer()
+	rc.SetContext(context.Background(), false)
+	rc.SetRoutine(func(ctx context.Context) error { runs.Add(1); return nil })
+	time.Sleep(govcStep)
+	ctx2, c2 := context.WithCancel(context.Background())
+	defer c2()
+	rc.SetContext(ctx2, true)
+	rc.ClearContext()
+	rc.SetContext(context.Background(), true)
+	time.Sleep(govcStep)
+	if n := runs.Load(); n != 1 {
+		return fmt.Sprintf("a routine that returned nil was run %d times after SetContext(restart=true) / ClearContext", n)
+	}
+	var fruns atomic.Int32
+	rf := NewRoutineContainer()
+	rf.SetContext(context.Background(), false)
+	rf.SetRoutine(func(ctx context.Context) error { fruns.Add(1); return errors.New("boom") })
+	time.Sleep(govcStep)
+	ctx3, c3 := context.WithCancel(context.Background())
+	defer c3()
+	rf.SetContext(ctx3, false)
+	time.Sleep(govcStep)
+	if n := fruns.Load(); n != 1 {
+		return fmt.Sprintf("a failed routine without retry was run %d times after SetContext(other, restart=false)", n)
+	}
+	rf.SetContext(context.Background(), true)
+	time.Sleep(govcStep)
+	if n := fruns.Load(); n != 2 {
+		return fmt.Sprintf("a failed routine was run %d times in total after SetContext(other, restart=true), want 2", n)
+	}
+	return ""
+}
+
 type govcConstBackoff struct{ d time.Duration }
 
 func (b *govcConstBackoff) NextBackOff() time.Duration { return b.d }
@@ -216,8 +252,8 @@ func TestGovcReplay(t *testing.T) {
 		scenarios = []func() string{govcSetNil, govcClearContext, govcThreeRoutines}
 	case strings.Contains(rf.Obligation, "StateRoutineContainer"):
 		scenarios = []func() string{govcStateConcurrent}
-	case strings.Contains(rf.Obligation, "retry") || strings.Contains(rf.Obligation, "execute$1$1"):
-		scenarios = []func() string{govcRetry}
+	case strings.Contains(rf.Obligation, ".T1") || strings.Contains(rf.Obligation, "execute$1$1") || strings.Contains(rf.Obligation, "rerun") || strings.Contains(rf.Obligation, "onlyrestart"):
+		scenarios = []func() string{govcRetry, govcSuccessNotRerun}
 	}
 	verdict := "NOT-REPRODUCED"
 	for _, s := range scenarios {
